@@ -249,22 +249,23 @@ template <int CFG> struct Zoo {
 	using GuardControl = typename FSM::GuardControl; using FullControl = typename FSM::FullControl; \
 	using ConstControl = typename FSM::ConstControl; using PlanControl = typename FSM::State::PlanControl;
 
-#define VF_CB_ENTRY_GUARD(SID, WHO) VF_VIRT void entryGuard(GuardControl& c) noexcept { Runner<CFG>::cb(c, SID, M_ENTRY_GUARD, WHO, thisOk(), nullptr, ++seen); }
-#define VF_CB_ENTER(SID, WHO) VF_VIRT void enter(PlanControl& c) noexcept { Runner<CFG>::cb(c, SID, M_ENTER, WHO, thisOk(), nullptr, ++seen); }
-#define VF_CB_REENTER(SID, WHO) VF_VIRT void reenter(PlanControl& c) noexcept { Runner<CFG>::cb(c, SID, M_REENTER, WHO, thisOk(), nullptr, ++seen); }
-#define VF_CB_PRE_UPDATE(SID, WHO) VF_VIRT void preUpdate(FullControl& c) noexcept { Runner<CFG>::cb(c, SID, M_PRE_UPDATE, WHO, thisOk(), nullptr, ++seen); }
-#define VF_CB_UPDATE(SID, WHO) VF_VIRT void update(FullControl& c) noexcept { Runner<CFG>::cb(c, SID, M_UPDATE, WHO, thisOk(), nullptr, ++seen); }
-#define VF_CB_POST_UPDATE(SID, WHO) VF_VIRT void postUpdate(FullControl& c) noexcept { Runner<CFG>::cb(c, SID, M_POST_UPDATE, WHO, thisOk(), nullptr, ++seen); }
+#define VF_CB_ENTRY_GUARD(SID, WHO) VF_VIRT void entryGuard(GuardControl& c) VF_CONSTQ noexcept { Runner<CFG>::cb(c, SID, M_ENTRY_GUARD, WHO, thisOk(), nullptr, ++seen); }
+#define VF_CB_ENTER(SID, WHO) VF_VIRT void enter(PlanControl& c) VF_CONSTQ noexcept { Runner<CFG>::cb(c, SID, M_ENTER, WHO, thisOk(), nullptr, ++seen); }
+#define VF_CB_REENTER(SID, WHO) VF_VIRT void reenter(PlanControl& c) VF_CONSTQ noexcept { Runner<CFG>::cb(c, SID, M_REENTER, WHO, thisOk(), nullptr, ++seen); }
+#define VF_CB_PRE_UPDATE(SID, WHO) VF_VIRT void preUpdate(FullControl& c) VF_CONSTQ noexcept { Runner<CFG>::cb(c, SID, M_PRE_UPDATE, WHO, thisOk(), nullptr, ++seen); }
+#define VF_CB_UPDATE(SID, WHO) VF_VIRT void update(FullControl& c) VF_CONSTQ noexcept { Runner<CFG>::cb(c, SID, M_UPDATE, WHO, thisOk(), nullptr, ++seen); }
+#define VF_CB_POST_UPDATE(SID, WHO) VF_VIRT void postUpdate(FullControl& c) VF_CONSTQ noexcept { Runner<CFG>::cb(c, SID, M_POST_UPDATE, WHO, thisOk(), nullptr, ++seen); }
 #define VF_CB_PRE_REACT(SID, WHO) template <class E> void preReact(const E& e, FullControl& c) { Runner<CFG>::cb(c, SID, M_PRE_REACT, WHO, thisOk(), &e, ++seen); }
 #define VF_CB_REACT(SID, WHO) template <class E> void react(const E& e, FullControl& c) { Runner<CFG>::cb(c, SID, M_REACT, WHO, thisOk(), &e, ++seen); }
 #define VF_CB_POST_REACT(SID, WHO) template <class E> void postReact(const E& e, FullControl& c) { Runner<CFG>::cb(c, SID, M_POST_REACT, WHO, thisOk(), &e, ++seen); }
 #define VF_CB_QUERY(SID, WHO) template <class E> void query(E& e, ConstControl& c) const { Runner<CFG>::cb(c, SID, M_QUERY, WHO, thisOk(), &e, ++seen); }
-#define VF_CB_EXIT_GUARD(SID, WHO) VF_VIRT void exitGuard(GuardControl& c) noexcept { Runner<CFG>::cb(c, SID, M_EXIT_GUARD, WHO, thisOk(), nullptr, ++seen); }
-#define VF_CB_EXIT(SID, WHO) VF_VIRT void exit(PlanControl& c) noexcept { Runner<CFG>::cb(c, SID, M_EXIT, WHO, thisOk(), nullptr, ++seen); }
+#define VF_CB_EXIT_GUARD(SID, WHO) VF_VIRT void exitGuard(GuardControl& c) VF_CONSTQ noexcept { Runner<CFG>::cb(c, SID, M_EXIT_GUARD, WHO, thisOk(), nullptr, ++seen); }
+#define VF_CB_EXIT(SID, WHO) VF_VIRT void exit(PlanControl& c) VF_CONSTQ noexcept { Runner<CFG>::cb(c, SID, M_EXIT, WHO, thisOk(), nullptr, ++seen); }
 
 // every scripted object counts the callbacks delivered to it in a data member of its own (state-local data: a copy of the machine must carry it along)
 #define VF_LOCAL mutable uint16_t seen = 0; EvA inboxA{0}; EvB inboxB{0, 0};
 #define VF_VIRT
+#define VF_CONSTQ
 #define VF_CALLBACKS(SID, WHO) \
 	VF_CB_ENTRY_GUARD(SID, WHO) VF_CB_ENTER(SID, WHO) VF_CB_REENTER(SID, WHO) VF_CB_PRE_UPDATE(SID, WHO) VF_CB_UPDATE(SID, WHO) VF_CB_POST_UPDATE(SID, WHO) \
 	VF_CB_PRE_REACT(SID, WHO) VF_CB_REACT(SID, WHO) VF_CB_POST_REACT(SID, WHO) VF_CB_QUERY(SID, WHO) VF_CB_EXIT_GUARD(SID, WHO) VF_CB_EXIT(SID, WHO)
@@ -345,6 +346,10 @@ struct StT<CFG, I, 2> : Zoo<CFG>::FSM::State {
 	VF_CB_ENTRY_GUARD(I, WHO_SELF) VF_CB_REENTER(I, WHO_SELF) VF_CB_PRE_UPDATE(I, WHO_SELF) VF_CB_POST_UPDATE(I, WHO_SELF) VF_CB_REACT(I, WHO_SELF) VF_CB_EXIT(I, WHO_SELF)
 	uint32_t localSum() const { return seen; }
 };
+// (kinds 3 and 5 also declare their callbacks `const noexcept`: in C++17 that is a different member-function type, which the library's
+// "does this state define the callback" test must still recognise)
+#undef VF_CONSTQ
+#define VF_CONSTQ const
 template <int CFG, int I>
 struct StT<CFG, I, 3> : Zoo<CFG>::FSM::State {
 	VF_FSM_TYPES(CFG)
@@ -353,6 +358,8 @@ struct StT<CFG, I, 3> : Zoo<CFG>::FSM::State {
 	VF_CB_ENTER(I, WHO_SELF) VF_CB_UPDATE(I, WHO_SELF) VF_CB_PRE_REACT(I, WHO_SELF) VF_CB_POST_REACT(I, WHO_SELF) VF_CB_QUERY(I, WHO_SELF) VF_CB_EXIT_GUARD(I, WHO_SELF)
 	uint32_t localSum() const { return seen; }
 };
+#undef VF_CONSTQ
+#define VF_CONSTQ
 // ... and the same two halves for a state that has one injection: whatever the state does not define itself is inherited from the library's
 // defaults, NOT from the injection (whose own callback is run by the injection chain, exactly once)
 template <int CFG, int I>
@@ -363,6 +370,8 @@ struct StT<CFG, I, 4> : StBase<CFG, I, 1>::type {
 	VF_CB_ENTRY_GUARD(I, WHO_SELF) VF_CB_REENTER(I, WHO_SELF) VF_CB_PRE_UPDATE(I, WHO_SELF) VF_CB_POST_UPDATE(I, WHO_SELF) VF_CB_REACT(I, WHO_SELF) VF_CB_EXIT(I, WHO_SELF)
 	uint32_t localSum() const { return seen * 31u + static_cast<const Inj<CFG, I, 0>*>(this)->seen; }
 };
+#undef VF_CONSTQ
+#define VF_CONSTQ const
 template <int CFG, int I>
 struct StT<CFG, I, 5> : StBase<CFG, I, 1>::type {
 	VF_FSM_TYPES(CFG)
@@ -371,6 +380,8 @@ struct StT<CFG, I, 5> : StBase<CFG, I, 1>::type {
 	VF_CB_ENTER(I, WHO_SELF) VF_CB_UPDATE(I, WHO_SELF) VF_CB_PRE_REACT(I, WHO_SELF) VF_CB_POST_REACT(I, WHO_SELF) VF_CB_QUERY(I, WHO_SELF) VF_CB_EXIT_GUARD(I, WHO_SELF)
 	uint32_t localSum() const { return seen * 31u + static_cast<const Inj<CFG, I, 0>*>(this)->seen; }
 };
+#undef VF_CONSTQ
+#define VF_CONSTQ
 static constexpr uint16_t DEF_A = (1u << M_ENTRY_GUARD) | (1u << M_REENTER) | (1u << M_PRE_UPDATE) | (1u << M_POST_UPDATE) | (1u << M_REACT) | (1u << M_EXIT);
 static constexpr uint16_t DEF_B = (1u << M_ENTER) | (1u << M_UPDATE) | (1u << M_PRE_REACT) | (1u << M_POST_REACT) | (1u << M_QUERY) | (1u << M_EXIT_GUARD);
 
